@@ -150,13 +150,18 @@ func (s *streamWriter) init() {
 			}
 		default:
 			slog.Debug("remote using TLS for writing")
-			rawconn, err = tls.Dial("tcp", s.writeToAddr, s.tlsConfig)
+			// tls.Dial returns a *tls.Conn. Storing the nil pointer of a failed
+			// dial in rawconn would make that interface non-nil, and the
+			// "could not connect" test below would never fire.
+			var tlsconn *tls.Conn
+			tlsconn, err = tls.Dial("tcp", s.writeToAddr, s.tlsConfig)
 			if err != nil {
 				d := time.Duration(delay * time.Duration(i*2))
 				slog.Error("tls.Dial", "err", err, "remote", s.writeToAddr, "retry", i, "max", maxRetries, "delay", d)
 				time.Sleep(d)
 				continue
 			}
+			rawconn = tlsconn
 		}
 		break
 	}
